@@ -54,7 +54,7 @@ func c03(c *ctx) {
 	for _, sz := range []int{2, 3, 5, 8, 13, 21} {
 		cfgs = append(cfgs, config{name: fmt.Sprintf("size%d", sz), v: vPlain, memo: sz%2 == 1, size: sz})
 	}
-	f := &family{c: c, tag: "c03", configs: cfgs, noexec: true, history: []string{"memo", "both"}, pairs: []string{"memo"}}
+	f := &family{c: c, tag: "c03", configs: cfgs, noexec: true, history: []string{"memo", "both"}, pairs: []string{"memo"}, retries: []string{"memo", "nomemo"}}
 	f.judge = func(cs *gcase, e entry, it *ref.Interp, refOK bool, refEnd int, res map[string]*corpus.Res) {
 		covAccumulate(c, it)
 		id := report.Hash(cs.text, fmt.Sprint(e.rule), e.input)
@@ -104,7 +104,7 @@ func c03(c *ctx) {
 		}
 	}
 	f.run(cases)
-	requireCov(c, "token_count_equals_initial_capacity", "token_count_one_past_initial_capacity", "ref_nonempty_tokens_discarded_lookahead", "ref_nonempty_tokens_discarded_seqfail", "ref_capture_discarded_lookahead", "ref_action_discarded_seqfail", "ref_action_discarded_lookahead", "ref_seq_failed_after_tokens", "ref_capture_completed_in_lookahead")
+	requireCov(c, "token_count_equals_initial_capacity", "token_count_one_past_initial_capacity", "ref_nonempty_tokens_discarded_lookahead", "ref_nonempty_tokens_discarded_seqfail", "ref_capture_discarded_lookahead", "ref_action_discarded_seqfail", "ref_action_discarded_lookahead", "ref_seq_failed_after_tokens", "ref_capture_completed_in_lookahead", "retry_success_after_failed_attempts")
 	c.run.Rule = "cases: shared-prefix grammars (alternatives repeating a prefix of rule calls, captures and actions before the point of failure; repetitions whose last iteration fails after writing tokens; captures/actions/rule calls inside & and !) plus all-operator grammars; multi-byte alphabet; token buffer Size unset/1/2/3/4/5/8/13/21 (the evidence counts how often the token count landed exactly on / one past the initial capacity), memo on/off, plus -inline -switch; every rule used as entry. " +
 		"Oracle: the token list (rule, begin, end in runes) equals the reference interpreter's post-order record of the successful derivation, plus reference-free invariants (bounds, last token = entry rule over the consumed prefix, laminar post-order). " +
 		"distinct_nontrivial = distinct accepted (grammar, entry, input) during whose parse the reference discarded at least one non-empty token on backtracking or at the end of a lookahead."
